@@ -39,10 +39,16 @@ type moScen struct {
 	P, Buf int
 	Fail   map[int]bool
 	Steps  []moStep
+	MCtx   int  // the context given to MapStream itself: 0 = background, 2 = context 2 (cancellable by a step)
+	Pre    bool // context 2 is cancelled before MapStream is called
 }
 
 func genMapOrd(rng *rand.Rand, kind string) moScen {
 	s := moScen{Kind: kind, P: []int{-1, 1, 2, 3}[rng.Intn(4)], Buf: []int{-1, 0, 1, 2, 4}[rng.Intn(5)], Fail: map[int]bool{}}
+	if kind == "stream" && rng.Intn(3) == 0 {
+		s.MCtx = 2
+		s.Pre = rng.Intn(4) == 0
+	}
 	n := rng.Intn(7)
 	items, rel := 0, []int{}
 	finished := false
@@ -67,7 +73,11 @@ func genMapOrd(rng *rand.Rand, kind string) moScen {
 			}
 			s.Steps = append(s.Steps, moStep{A: "next", Ctx: ctx})
 		case c < 85 && kind == "stream":
-			s.Steps = append(s.Steps, moStep{A: "cancel", Ctx: 1})
+			if s.MCtx == 2 && rng.Intn(2) == 0 {
+				s.Steps = append(s.Steps, moStep{A: "cancel", Ctx: 2})
+			} else {
+				s.Steps = append(s.Steps, moStep{A: "cancel", Ctx: 1})
+			}
 		case c < 93 && !finished && items == n:
 			finished = true
 			if kind == "stream" && rng.Intn(4) == 0 {
@@ -147,7 +157,10 @@ func runMapOrd(t *testing.T, s moScen) ([]Ev, bool, string) {
 			_ = iterator.Empty[int]
 		} else {
 			src = &gateSrc{q: q, r: r}
-			st := parallel.MapStream[int, int](context.Background(), src, s.P, s.Buf, func(ctx context.Context, v int) (int, error) { return f(v) })
+			if s.Pre {
+				r.Cancel(2)
+			}
+			st := parallel.MapStream[int, int](r.Ctx(s.MCtx), src, s.P, s.Buf, func(ctx context.Context, v int) (int, error) { return f(v) })
 			nextFn = func(ctx context.Context) Ev {
 				v, err := st.Next(ctx)
 				switch {
@@ -226,7 +239,7 @@ func runMapOrd(t *testing.T, s moScen) ([]Ev, bool, string) {
 		}
 		do(moStep{A: "close"})
 		quiesce()
-		r.emit(Ev{"ev": "reset", "kind": "done", "p": 1, "buf": 0, "gmp": 1})
+		r.emit(Ev{"ev": "reset", "kind": "done", "p": 1, "buf": 0, "gmp": 1, "mctx": 0})
 		for k := 0; k < 4; k++ {
 			select {
 			case q <- srcMsg{1, 0}:
@@ -264,7 +277,7 @@ func TestMapOrd(t *testing.T) {
 				if leak {
 					leaks++
 				}
-				writeRuns(w, &runs, evs, leak, msg, Ev{"kind": s.Kind, "p": s.P, "buf": s.Buf, "gmp": runtime.GOMAXPROCS(-1)})
+				writeRuns(w, &runs, evs, leak, msg, Ev{"kind": s.Kind, "p": s.P, "buf": s.Buf, "gmp": runtime.GOMAXPROCS(-1), "mctx": s.MCtx})
 			}
 		}
 	}
@@ -274,7 +287,7 @@ func TestMapOrd(t *testing.T) {
 		if leak {
 			leaks++
 		}
-		writeRuns(w, &runs, evs, leak, msg, Ev{"kind": s.Kind, "p": s.P, "buf": s.Buf, "gmp": runtime.GOMAXPROCS(-1)})
+		writeRuns(w, &runs, evs, leak, msg, Ev{"kind": s.Kind, "p": s.P, "buf": s.Buf, "gmp": runtime.GOMAXPROCS(-1), "mctx": s.MCtx})
 	}
 	w.close()
 	report(Ev{"engine": "bubble", "subject": "mapord", "runs": runs, "events": w.n, "leaks": leaks})
